@@ -10,6 +10,7 @@ import (
 	"fmt"
 	"math/rand"
 	"os"
+	"os/exec"
 	"path/filepath"
 	"sort"
 	"strings"
@@ -449,12 +450,20 @@ func damageCase(goit string, c *Chunk, snap map[string][]byte, tz int, good M, g
 	}
 	dr := runnerAt(goit, d, c.T, tz)
 	dr.Timeout = 15e9
+	// "allocates without bound" guard: the address space of the command is limited to 4 GiB (a decoder that believes a
+	// damaged length field dies with the runtime's out-of-memory error, which counts as a crash), and the peak resident
+	// size is compared with a bound. The kernel reports for a child at least the resident size this process had when it
+	// spawned it (the peak is carried over the exec), so the bound is relative to that.
+	if _, err := exec.LookPath("prlimit"); err == nil {
+		dr.Wrap = func(argv []string) []string { return append([]string{"prlimit", "--as=4294967296"}, argv...) }
+	}
+	rssBound := selfPeakRSSKB() + 1<<20
 	st := c.T.Project(dr.Root, dr.Home)
 	results := M{}
 	run := func(name string, args ...string) ExecResult {
 		x := dr.RunGoit(args...)
 		res := x.Res
-		if x.MaxRSSKB > 1<<20 {
+		if x.MaxRSSKB > rssBound {
 			res = "alloc"
 		}
 		if x.MaxRSSKB > stats.MaxRSSKB {
@@ -595,4 +604,20 @@ func craftedObjects(tree, parent string, thorough bool) []mutation {
 	add("tree", "1 a\x00"+id20)
 	add("tree", " a\x00"+id20)
 	return out
+}
+
+// selfPeakRSSKB is the peak resident set size of this process (VmHWM), in KiB.
+func selfPeakRSSKB() int64 {
+	b, err := os.ReadFile("/proc/self/status")
+	if err != nil {
+		return 0
+	}
+	for _, ln := range strings.Split(string(b), "\n") {
+		if strings.HasPrefix(ln, "VmHWM:") {
+			var kb int64
+			fmt.Sscanf(strings.TrimSpace(strings.TrimPrefix(ln, "VmHWM:")), "%d", &kb)
+			return kb
+		}
+	}
+	return 0
 }
